@@ -113,6 +113,8 @@ def numpyValue (st : St) (x : Option Name) (dtype : Option Nat := none) (limit :
   match x with
   | none => none
   | some x =>
+    -- an initializer that is also a graph input is only an overridable default: never a constant
+    if st.isGraphInput x then none else
     match st.constOf x with
     | none => none
     | some c =>
@@ -229,6 +231,10 @@ def evAdd (st : St) (n : Node) : EvRes × St :=
       | _ => none
   match dimOf 0, dimOf 1 with
   | some d0, some d1 =>
+    let isNeg (d : Dim) : Bool := match d with | .known k => k < 0 | _ => false
+    let bothKnown : Bool := match d0, d1 with | .known _, .known _ => true | _, _ => false
+    -- symbolic dims are assumed non-negative: no symbolic sum with a negative constant
+    if !bothKnown && (isNeg d0 || isNeg d1) then (.none, st.note "add:negconst") else
     let r : Dim := match d0, d1 with
       | .known a, .known b => .known (a + b)
       | a, b => .sym ((dimStr a).getD "" ++ "+" ++ (dimStr b).getD "")
@@ -450,7 +456,7 @@ def evConcatFromSequence (st : St) (n : Node) : EvRes × St :=
           let (av, st) := st.freshName
           let cst := mkNode "Constant" [] [av] [("value_int", .int axis)]
           let (uns, st) := elems.foldl (fun (acc : List (Node × Name) × St) e =>
-              let (u, s) := acc.2.freshNamed ((match e with | some x => acc.2.display x | none => "") ++ "_unsqueeze")
+              let (u, s) := acc.2.freshNamed ((match e with | some x => acc.2.display x | none => "") ++ "_unsqueeze_" ++ toString acc.1.length)
               (acc.1 ++ [(mkNode "Unsqueeze" [e, some av] [u], u)], s)) (([] : List (Node × Name)), st)
           let (o, st) := st.freshName
           (.repl { newNodes := cst :: uns.map (·.1) ++ [mkNode "Concat" (uns.map (fun p => some p.2)) [o] [("axis", .int axis)]],
